@@ -152,6 +152,42 @@ func (c *kvCase) fail(what string) {
 	c.st.Fail(c.id, what, c.e.CaseOps())
 }
 
+// diff runs Diff(h, g), emits it for the model and checks it against the visible values.
+func (c *kvCase) diff(h, g *kvHandle, keys []string) bool {
+	var parts []string
+	err := h.db.Diff(ctxBG, g.db, func(key, mine, from interface{}) (bool, error) {
+		parts = append(parts, fmt.Sprintf("%v=%s:%s", key, optStr(mine), optStr(from)))
+		return true, nil
+	})
+	if err != nil {
+		// F32: mast compares the nil key of an empty root node (plain keys only)
+		if strings.Contains(err.Error(), "keyCompare:") && (h.db.Size() == 0 || g.db.Size() == 0) && c.st.known("F32") {
+			c.st.Count("diff_F32")
+			return true
+		}
+		c.fail(fmt.Sprintf("diff %s %s: %v", h.name, g.name, err))
+		return false
+	}
+	sort.Strings(parts)
+	c.e.Op(fmt.Sprintf("kv diff %s %s", h.name, g.name), strings.Join(parts, " "))
+	// implementation-only oracle: exactly the keys whose visible value differs
+	for _, k := range keys {
+		var a, b string
+		a, b = c.visible(h.db, k), c.visible(g.db, k)
+		reported := false
+		for _, p := range parts {
+			if strings.HasPrefix(p, k+"=") {
+				reported = true
+			}
+		}
+		if (a != b) != reported {
+			c.fail(fmt.Sprintf("Diff(%s,%s) key %s: visible %q vs %q, reported=%v", h.name, g.name, k, a, b, reported))
+		}
+	}
+	c.st.Count("diff")
+	return true
+}
+
 func (c *kvCase) run(nops int) {
 	keys := []string{"a", "b", "c", "d", "e", "f", "g", "h"}[:2+c.r.Intn(6)]
 	defer func() {
@@ -222,6 +258,13 @@ func (c *kvCase) run(nops int) {
 			}
 			if len(c.currentRoots()) > 1 {
 				c.shapes["multi"] = true
+				// what the merge changed relative to every other handle (the writers it merged among them)
+				nh := c.handles[len(c.handles)-1]
+				for _, g := range c.handles[:len(c.handles)-1] {
+					if !c.diff(nh, g, keys) {
+						return
+					}
+				}
 			}
 		case op < 17: // get / istomb
 			k := gen.Pick(c.r, keys)
@@ -246,38 +289,9 @@ func (c *kvCase) run(nops int) {
 			c.e.Op("kv dump "+h.name, d)
 			c.st.Count("dump")
 		default: // diff
-			g := gen.Pick(c.r, c.handles)
-			var parts []string
-			err := h.db.Diff(ctxBG, g.db, func(key, mine, from interface{}) (bool, error) {
-				parts = append(parts, fmt.Sprintf("%v=%s:%s", key, optStr(mine), optStr(from)))
-				return true, nil
-			})
-			if err != nil {
-				// F32: mast compares the nil key of an empty root node (plain keys only)
-				if strings.Contains(err.Error(), "keyCompare:") && (h.db.Size() == 0 || g.db.Size() == 0) && c.st.known("F32") {
-					c.st.Count("diff_F32")
-					continue
-				}
-				c.fail(fmt.Sprintf("diff %s %s: %v", h.name, g.name, err))
+			if !c.diff(h, gen.Pick(c.r, c.handles), keys) {
 				return
 			}
-			sort.Strings(parts)
-			c.e.Op(fmt.Sprintf("kv diff %s %s", h.name, g.name), strings.Join(parts, " "))
-			// implementation-only oracle: exactly the keys whose visible value differs
-			for _, k := range keys {
-				var a, b string
-				a, b = c.visible(h.db, k), c.visible(g.db, k)
-				reported := false
-				for _, p := range parts {
-					if strings.HasPrefix(p, k+"=") {
-						reported = true
-					}
-				}
-				if (a != b) != reported {
-					c.fail(fmt.Sprintf("Diff(%s,%s) key %s: visible %q vs %q, reported=%v", h.name, g.name, k, a, b, reported))
-				}
-			}
-			c.st.Count("diff")
 		}
 	}
 	// commit everything, then the order-independence oracle on the real code
